@@ -49,6 +49,12 @@ def plan(tier, seed):
                           cases=60 if q else 2000, seed=seed + 3, tier=tier,
                           variant='asan', big=False,
                           timeout=1500 if q else 7200))
+    # memcheck over the native sorters (scratch buffers, radix passes)
+    for fam in (['LL'] if q else ['II', 'LL', 'UU', 'QQ', 'IF']):
+        specs.append(dict(label=fam + '-valgrind', family=fam,
+                          cases=24 if q else 250, seed=seed + 5, tier=tier,
+                          variant='vg', big=False,
+                          timeout=1800 if q else 7200))
     return specs
 
 
@@ -150,7 +156,7 @@ def run_shard(spec, rec):
     rng = rng_for(spec['seed'], ID, spec['label'])
     sizes = list(SIZES) + ([20000] if spec.get('big') else [])
     for i in range(spec['cases']):
-        impl = 'c' if (i % 4 != 3 or spec['variant'] == 'asan') else 'py'
+        impl = 'c' if (i % 4 != 3 or spec['variant'] in ('asan', 'vg')) else 'py'
         n = rng.choice(sizes)
         if impl == 'py' and n > 2000:
             n = 802
